@@ -12,7 +12,8 @@ import re
 from harness import core, tlc
 from props import c14_common as cc
 
-INVS = ["TypeOK", "SinkGrammar", "ReturnedClean", "DisposedIsStopped", "RefOK", "BoundedResched", "Grammar", "NoStrayException"]
+INVS = ["TypeOK", "SinkGrammar", "ReturnedClean", "DisposedIsStopped", "RefOK", "BoundedResched", "Grammar", "NoStrayException",
+        "NoPullAfterEnd", "NoStaleWork"]
 G0 = dict(GLen=0, GPost=0, GRaise={0})     # the C01 part of the module is switched off
 PROPS = ["SlotMono", "DisposedStops"]
 
